@@ -324,6 +324,26 @@ impl Sub for History {
                 ],
             });
         }
+        // long runs of one symbol: at least 256 / 512 consecutive ROWS of a column hold the same symbol (8-bit
+        // per-lane match counters of a vectorised count), alone and inside an otherwise mixed sequence
+        for abc in [Abc::Dna, Abc::Protein] {
+            for (len, sym) in [(8161usize, 0u8), (8192, 4), (8193, 2), (16321, 1), (16384 + 5, 3), (20000, 0)] {
+                out.push(Case {
+                    abc,
+                    cols: Cols::U32,
+                    first: (SeqSpec::Homopolymer { len, sym }, SBk::Avx2),
+                    ops: vec![Op::ConfigureWrap(7)],
+                });
+                // a 600-symbol run inside a mixed sequence: Tandem with a long unit
+                let mut unit: Vec<u8> = (0..len.min(9000)).map(|i| ((i * 7 + i / 5) % 4) as u8).collect();
+                let at = unit.len() / 3;
+                let end = (at + 700).min(unit.len());
+                for x in unit[at..end].iter_mut() {
+                    *x = sym % 4;
+                }
+                out.push(Case { abc, cols: Cols::U32, first: (SeqSpec::Tandem { unit, len: len + 999 }, SBk::Generic), ops: vec![Op::Configure(12)] });
+            }
+        }
         // more than 65536 striped rows (a 16-bit row counter), every striping backend, then a shorter re-use
         let l = 32 * 65536 + 37;
         for bk in [SBk::Avx2, SBk::Generic, SBk::Dispatch(Arm::Sse2), SBk::ToStriped(Arm::Avx2)] {
